@@ -914,20 +914,11 @@ DIRECTED = {
         "main.go": 'package main\n\nfunc main() { println(InitApp().Repo.DB.Retries) }\n',
         "wire.go": '//go:build wireinject\n\npackage main\n\nimport (\n\t"github.com/google/wire"\n\n\t. "vscratch/NAME/providers"\n)\n\nvar repoSet = wire.NewSet(NewDB, NewRepo)\n\nfunc InitApp() *App {\n\twire.Build(repoSet, wire.Value(DefaultOptions), NewApp)\n\treturn nil\n}\n'},
     # wire.InterfaceValue(new(I), ident) in a package that imports nothing but wire: the identifier's source position must
-    # not steer the layout (40 more runs)
+    # not steer the layout (a 300 kB package, 60 more runs)
     "interface_value_ident_layout": {
-        "__reruns__": 40,
+        "__reruns__": 60, "__big_fillers__": 12,
         "t.go": 'package main\n\ntype Logger interface{ Log(string) string }\ntype ConsoleLogger struct{}\n\nfunc (*ConsoleLogger) Log(s string) string { return s }\n\nvar std = &ConsoleLogger{}\n\ntype App struct{ L Logger }\n\nfunc NewApp(l Logger, n int) *App { return &App{l} }\nfunc NewN() int                   { return 1 }\n',
         "main.go": 'package main\n\nfunc main() { println(InitIt().L.Log("x")) }\n',
-        "filler1.go": 'package main\n\n// Filler1_1 pads file 1.\nvar Filler1_1 = 7\n\n// Filler1_2 pads file 1.\nvar Filler1_2 = 14\n\n// Filler1_3 pads file 1.\nvar Filler1_3 = 21\n',
-        "filler2.go": 'package main\n\n// Filler2_1 pads file 2.\nvar Filler2_1 = 14\n\n// Filler2_2 pads file 2.\nvar Filler2_2 = 28\n\n// Filler2_3 pads file 2.\nvar Filler2_3 = 42\n\n// Filler2_4 pads file 2.\nvar Filler2_4 = 56\n\n// Filler2_5 pads file 2.\nvar Filler2_5 = 70\n\n// Filler2_6 pads file 2.\nvar Filler2_6 = 84\n',
-        "filler3.go": 'package main\n\n// Filler3_1 pads file 3.\nvar Filler3_1 = 21\n\n// Filler3_2 pads file 3.\nvar Filler3_2 = 42\n\n// Filler3_3 pads file 3.\nvar Filler3_3 = 63\n\n// Filler3_4 pads file 3.\nvar Filler3_4 = 84\n\n// Filler3_5 pads file 3.\nvar Filler3_5 = 105\n\n// Filler3_6 pads file 3.\nvar Filler3_6 = 126\n\n// Filler3_7 pads file 3.\nvar Filler3_7 = 147\n\n// Filler3_8 pads file 3.\nvar Filler3_8 = 168\n\n// Filler3_9 pads file 3.\nvar Filler3_9 = 189\n',
-        "filler4.go": 'package main\n\n// Filler4_1 pads file 4.\nvar Filler4_1 = 28\n\n// Filler4_2 pads file 4.\nvar Filler4_2 = 56\n\n// Filler4_3 pads file 4.\nvar Filler4_3 = 84\n\n// Filler4_4 pads file 4.\nvar Filler4_4 = 112\n\n// Filler4_5 pads file 4.\nvar Filler4_5 = 140\n\n// Filler4_6 pads file 4.\nvar Filler4_6 = 168\n\n// Filler4_7 pads file 4.\nvar Filler4_7 = 196\n\n// Filler4_8 pads file 4.\nvar Filler4_8 = 224\n\n// Filler4_9 pads file 4.\nvar Filler4_9 = 252\n\n// Filler4_10 pads file 4.\nvar Filler4_10 = 280\n\n// Filler4_11 pads file 4.\nvar Filler4_11 = 308\n\n// Filler4_12 pads file 4.\nvar Filler4_12 = 336\n',
-        "filler5.go": 'package main\n\n// Filler5_1 pads file 5.\nvar Filler5_1 = 35\n\n// Filler5_2 pads file 5.\nvar Filler5_2 = 70\n\n// Filler5_3 pads file 5.\nvar Filler5_3 = 105\n\n// Filler5_4 pads file 5.\nvar Filler5_4 = 140\n\n// Filler5_5 pads file 5.\nvar Filler5_5 = 175\n\n// Filler5_6 pads file 5.\nvar Filler5_6 = 210\n\n// Filler5_7 pads file 5.\nvar Filler5_7 = 245\n\n// Filler5_8 pads file 5.\nvar Filler5_8 = 280\n\n// Filler5_9 pads file 5.\nvar Filler5_9 = 315\n\n// Filler5_10 pads file 5.\nvar Filler5_10 = 350\n\n// Filler5_11 pads file 5.\nvar Filler5_11 = 385\n\n// Filler5_12 pads file 5.\nvar Filler5_12 = 420\n\n// Filler5_13 pads file 5.\nvar Filler5_13 = 455\n\n// Filler5_14 pads file 5.\nvar Filler5_14 = 490\n\n// Filler5_15 pads file 5.\nvar Filler5_15 = 525\n',
-        "filler6.go": 'package main\n\n// Filler6_1 pads file 6.\nvar Filler6_1 = 42\n\n// Filler6_2 pads file 6.\nvar Filler6_2 = 84\n\n// Filler6_3 pads file 6.\nvar Filler6_3 = 126\n\n// Filler6_4 pads file 6.\nvar Filler6_4 = 168\n\n// Filler6_5 pads file 6.\nvar Filler6_5 = 210\n\n// Filler6_6 pads file 6.\nvar Filler6_6 = 252\n\n// Filler6_7 pads file 6.\nvar Filler6_7 = 294\n\n// Filler6_8 pads file 6.\nvar Filler6_8 = 336\n\n// Filler6_9 pads file 6.\nvar Filler6_9 = 378\n\n// Filler6_10 pads file 6.\nvar Filler6_10 = 420\n\n// Filler6_11 pads file 6.\nvar Filler6_11 = 462\n\n// Filler6_12 pads file 6.\nvar Filler6_12 = 504\n\n// Filler6_13 pads file 6.\nvar Filler6_13 = 546\n\n// Filler6_14 pads file 6.\nvar Filler6_14 = 588\n\n// Filler6_15 pads file 6.\nvar Filler6_15 = 630\n\n// Filler6_16 pads file 6.\nvar Filler6_16 = 672\n\n// Filler6_17 pads file 6.\nvar Filler6_17 = 714\n\n// Filler6_18 pads file 6.\nvar Filler6_18 = 756\n',
-        "filler7.go": 'package main\n\n// Filler7_1 pads file 7.\nvar Filler7_1 = 49\n\n// Filler7_2 pads file 7.\nvar Filler7_2 = 98\n\n// Filler7_3 pads file 7.\nvar Filler7_3 = 147\n\n// Filler7_4 pads file 7.\nvar Filler7_4 = 196\n\n// Filler7_5 pads file 7.\nvar Filler7_5 = 245\n\n// Filler7_6 pads file 7.\nvar Filler7_6 = 294\n\n// Filler7_7 pads file 7.\nvar Filler7_7 = 343\n\n// Filler7_8 pads file 7.\nvar Filler7_8 = 392\n\n// Filler7_9 pads file 7.\nvar Filler7_9 = 441\n\n// Filler7_10 pads file 7.\nvar Filler7_10 = 490\n\n// Filler7_11 pads file 7.\nvar Filler7_11 = 539\n\n// Filler7_12 pads file 7.\nvar Filler7_12 = 588\n\n// Filler7_13 pads file 7.\nvar Filler7_13 = 637\n\n// Filler7_14 pads file 7.\nvar Filler7_14 = 686\n\n// Filler7_15 pads file 7.\nvar Filler7_15 = 735\n\n// Filler7_16 pads file 7.\nvar Filler7_16 = 784\n\n// Filler7_17 pads file 7.\nvar Filler7_17 = 833\n\n// Filler7_18 pads file 7.\nvar Filler7_18 = 882\n\n// Filler7_19 pads file 7.\nvar Filler7_19 = 931\n\n// Filler7_20 pads file 7.\nvar Filler7_20 = 980\n\n// Filler7_21 pads file 7.\nvar Filler7_21 = 1029\n',
-        "filler8.go": 'package main\n\n// Filler8_1 pads file 8.\nvar Filler8_1 = 56\n\n// Filler8_2 pads file 8.\nvar Filler8_2 = 112\n\n// Filler8_3 pads file 8.\nvar Filler8_3 = 168\n\n// Filler8_4 pads file 8.\nvar Filler8_4 = 224\n\n// Filler8_5 pads file 8.\nvar Filler8_5 = 280\n\n// Filler8_6 pads file 8.\nvar Filler8_6 = 336\n\n// Filler8_7 pads file 8.\nvar Filler8_7 = 392\n\n// Filler8_8 pads file 8.\nvar Filler8_8 = 448\n\n// Filler8_9 pads file 8.\nvar Filler8_9 = 504\n\n// Filler8_10 pads file 8.\nvar Filler8_10 = 560\n\n// Filler8_11 pads file 8.\nvar Filler8_11 = 616\n\n// Filler8_12 pads file 8.\nvar Filler8_12 = 672\n\n// Filler8_13 pads file 8.\nvar Filler8_13 = 728\n\n// Filler8_14 pads file 8.\nvar Filler8_14 = 784\n\n// Filler8_15 pads file 8.\nvar Filler8_15 = 840\n\n// Filler8_16 pads file 8.\nvar Filler8_16 = 896\n\n// Filler8_17 pads file 8.\nvar Filler8_17 = 952\n\n// Filler8_18 pads file 8.\nvar Filler8_18 = 1008\n\n// Filler8_19 pads file 8.\nvar Filler8_19 = 1064\n\n// Filler8_20 pads file 8.\nvar Filler8_20 = 1120\n\n// Filler8_21 pads file 8.\nvar Filler8_21 = 1176\n\n// Filler8_22 pads file 8.\nvar Filler8_22 = 1232\n\n// Filler8_23 pads file 8.\nvar Filler8_23 = 1288\n\n// Filler8_24 pads file 8.\nvar Filler8_24 = 1344\n',
-        "filler9.go": 'package main\n\n// Filler9_1 pads file 9.\nvar Filler9_1 = 63\n\n// Filler9_2 pads file 9.\nvar Filler9_2 = 126\n\n// Filler9_3 pads file 9.\nvar Filler9_3 = 189\n\n// Filler9_4 pads file 9.\nvar Filler9_4 = 252\n\n// Filler9_5 pads file 9.\nvar Filler9_5 = 315\n\n// Filler9_6 pads file 9.\nvar Filler9_6 = 378\n\n// Filler9_7 pads file 9.\nvar Filler9_7 = 441\n\n// Filler9_8 pads file 9.\nvar Filler9_8 = 504\n\n// Filler9_9 pads file 9.\nvar Filler9_9 = 567\n\n// Filler9_10 pads file 9.\nvar Filler9_10 = 630\n\n// Filler9_11 pads file 9.\nvar Filler9_11 = 693\n\n// Filler9_12 pads file 9.\nvar Filler9_12 = 756\n\n// Filler9_13 pads file 9.\nvar Filler9_13 = 819\n\n// Filler9_14 pads file 9.\nvar Filler9_14 = 882\n\n// Filler9_15 pads file 9.\nvar Filler9_15 = 945\n\n// Filler9_16 pads file 9.\nvar Filler9_16 = 1008\n\n// Filler9_17 pads file 9.\nvar Filler9_17 = 1071\n\n// Filler9_18 pads file 9.\nvar Filler9_18 = 1134\n\n// Filler9_19 pads file 9.\nvar Filler9_19 = 1197\n\n// Filler9_20 pads file 9.\nvar Filler9_20 = 1260\n\n// Filler9_21 pads file 9.\nvar Filler9_21 = 1323\n\n// Filler9_22 pads file 9.\nvar Filler9_22 = 1386\n\n// Filler9_23 pads file 9.\nvar Filler9_23 = 1449\n\n// Filler9_24 pads file 9.\nvar Filler9_24 = 1512\n\n// Filler9_25 pads file 9.\nvar Filler9_25 = 1575\n\n// Filler9_26 pads file 9.\nvar Filler9_26 = 1638\n\n// Filler9_27 pads file 9.\nvar Filler9_27 = 1701\n',
         "g_wire.go": '//go:build wireinject\n\npackage main\n\nimport "github.com/google/wire"\n\nvar Set = wire.NewSet(NewN, wire.InterfaceValue(new(Logger), std), NewApp)\n\nfunc InitIt() *App {\n\twire.Build(Set)\n\treturn nil\n}\n'},
     # an unnamed import ".../store/v2" (package store) next to a package that IS called v2
     "import_named_like_path_element": {
@@ -1038,7 +1029,11 @@ def directed_runs(key="WD-x"):
         sub = files.get("__sub__", "")
         margs = files.get("__args__", ["-o", "kessoku.go", "./"])
         reruns = files.get("__reruns__", 0)
+        big = files.get("__big_fillers__", 0)
         files = {k: v for k, v in files.items() if not k.startswith("__")}
+        for q in range(1, big + 1):
+            # a large package (about 300 kB): the position the loader gives a file then varies by tens of kilobytes
+            files["f%d.go" % q] = "package main\n\n" + "".join("func helper_%d_%d(x int) int { return x*%d + %d }\n" % (q, r, r, q) for r in range(1, 501))
         for side in ("", "_k", "_k2"):
             d = os.path.join(mod, name + side)
             for fn, txt in files.items():
